@@ -45,8 +45,36 @@ func aacProfileOf(o uint8) uint8 {
 	}
 }
 
+// c11SetASC collects disagreements of the public configuration entry point SetASC with the configuration it
+// was given (reported by c11 under clause adts.setasc); c11Flip alternates the two ways of configuring.
+var (
+	c11SetASC []string
+	c11Flip   int
+)
+
+// newADTS returns a codec whose configuration is st. For configurations the library accepts every other codec is
+// configured through the public SetASC with the two AudioSpecificConfig bytes packed here (ISO 14496-3 1.6.2.1:
+// 5 bits object, 4 bits frequency index, 4 bits channels), after a different configuration was set first, so the
+// codec's history never shows; the others (and all unaccepted configurations) are set through ASC().
 func newADTS(st aacCfg) aac.ADTS {
 	a, _ := aac.NewADTS()
+	c11Flip++
+	if aacAccepted(st) && c11Flip%2 == 0 {
+		other := aacCfg{2, uint8(1 + (int(st.s)+c11Flip)%12), uint8(1 + (int(st.c)+c11Flip/2)%7)}
+		pack := func(k aacCfg) []byte {
+			v := uint16(k.o)<<11 | uint16(k.s)<<7 | uint16(k.c)<<3
+			return []byte{byte(v >> 8), byte(v)}
+		}
+		e1 := a.SetASC(pack(other))
+		e2 := a.SetASC(pack(st))
+		if got := cfgOf(a.ASC()); e1 != nil || e2 != nil || got != st {
+			if len(c11SetASC) < 8 {
+				c11SetASC = append(c11SetASC, fmt.Sprintf("SetASC(%s) then SetASC(%s): errs %v/%v, ASC()=%s want %s", h.Hex(pack(other)), h.Hex(pack(st)), e1, e2, got, st))
+			}
+			*a.ASC() = st.asc()
+		}
+		return a
+	}
 	*a.ASC() = st.asc()
 	return a
 }
@@ -626,4 +654,9 @@ func c11(c *h.Ctx) {
 			c.Case("malformed/short-frame-length-on-64k-input", in, true)
 		}
 	}
+	// the public configuration entry point: every codec configured through SetASC reported the configuration given
+	for _, m := range c11SetASC {
+		c.Hold(false, "adts.setasc", m, "differs", "the configuration set")
+	}
+	c.Case("setasc/configured-through-public-entry-point", fmt.Sprint(c11Flip/2), len(c11SetASC) == 0)
 }
